@@ -25,6 +25,8 @@ func runC01(p *Prog, r *Report) {
 	r.Describe("C01.7/inproc", "inproc queues a fresh copy whose Body is Header‖Body")
 	inprocRules(p, r, "C01.7/inproc")
 	c01API(p, r)
+	r.Describe("C01.11/send-contract", "every transport pipe's Send consumes the message exactly when it returns nil: a message released on a failed write is released again by the protocol that sees the error, and its buffer is recycled while other pipes still have the same (shared) message queued — they then send another message's bytes")
+	e5SendContracts(p, r, "C01.11/send-contract", func(rel string) bool { return strings.HasPrefix(rel, "transport") })
 	r.Describe("C01.9/E6d", "no index/slice on a message buffer without a sufficient length check on any transport or protocol path (shared with C16.1)")
 	allow := map[string]string{}
 	for _, a := range [][3]string{{"transport", "conn", "Recv"}, {"transport", "connipc", "Recv"}} {
